@@ -652,7 +652,22 @@ Error Message: {}
                 blob = self._get_session_blob(
                     key, service, username, algorithm
                 )
-                if not key.verify_ssh_sig(blob, sig):
+                # The signature has to be of the algorithm named in the
+                # request (already checked against our enabled pubkeys by
+                # _generate_key_from_request), not of whichever one its own
+                # header names; cert suffix = key format only.
+                expected = algorithm.replace("-cert-v01@openssh.com", "")
+                sig_algorithm = sig.get_string()
+                sig.rewind()
+                if sig_algorithm != expected.encode("utf-8"):
+                    self._log(
+                        INFO,
+                        "Auth rejected: signature is not of type {}".format(
+                            expected
+                        ),
+                    )
+                    result = AUTH_FAILED
+                elif not key.verify_ssh_sig(blob, sig):
                     self._log(INFO, "Auth rejected: invalid signature")
                     result = AUTH_FAILED
         elif method == "keyboard-interactive":
